@@ -233,6 +233,21 @@ Definition run_query (st : est) (wi : N) (w : world) (qidx path arg : N) (q : qu
           else (st, [3])
       | _ => (st, [7])
       end
+  | 11 =>
+      (* the same with five handles in a scrambled order (the distinctness check of more than three
+         handles works on a sorted copy: the results must still follow the caller's order) *)
+      let k := match lenN hs with 0 => 0 | n => N.modulo arg n end in
+      match dropN k hs ++ takeN k hs with
+      | a :: b :: c :: d :: e :: _ =>
+          let five := if N.leb 1000 arg then [d; b; e; a; d] else [d; b; e; a; c] in
+          if distinct_entities five then
+            (st, 1 :: concat (map (fun h => match query_one w q h with
+                                            | Q1NoSuch => [0] | Q1Unsat => [1] | Q1Item i => 2 :: enc_item u i
+                                            end) five)
+                   ++ concat (map (fun h => enc_opt_item u (view_get w q h)) five))
+          else (st, [3])
+      | _ => (st, [7])
+      end
   | 10 => let bs := query_batches w q arg in     (* QueryMut::into_iter_batched *)
           (st, lenN bs :: concat (map (enc_entries u) bs))
   | _ => (st, map (fun h => match satisfies w q h with None => 0 | Some b => if b then 2 else 1 end) hs
@@ -855,7 +870,7 @@ Definition caps_post (st st' : est) (opc : N) (l : list N) : est :=
       (* the partially consumed batch iterators (18, 19) grow storage exactly like 14 and 15 *)
       let args := if N.eqb opc 18 || N.eqb opc 19 then tl args0 else args0 in
       let opc := if N.eqb opc 18 then 14 else if N.eqb opc 19 then 15 else opc in
-      if (N.leb 1 opc && N.leb opc 17) || N.eqb opc 53 || N.eqb opc 54 || N.eqb opc 64 then
+      if (N.leb 1 opc && N.leb opc 17) || N.eqb opc 24 || N.eqb opc 25 || N.eqb opc 53 || N.eqb opc 54 || N.eqb opc 64 then
         let u := e_u st in
         let upd (st'' : est) (w : N) :=
           match nthN (e_ws st) w, nthN (e_ws st') w with
@@ -951,6 +966,8 @@ Definition exec_op (st : est) (opc : N) (l : list N) : est * list N * list N :=
             | 2 | 3 => snd (dec_bundle u (snd (dec_href st args)))
             | 4 => snd (dec_types (snd (dec_href st args)))
             | 5 => snd (dec_bundle u (snd (dec_types (snd (dec_href st args)))))
+            | 24 => snd (dec_types (tl (snd (dec_href st args))))
+            | 25 => snd (dec_bundle u (snd (dec_types (tl (snd (dec_href st args))))))
             | 6 | 7 | 8 => snd (dec_href st args)
             | 11 => tl args
             | 13 => tl (snd (dec_types args))
@@ -1007,20 +1024,23 @@ Definition exec_op (st : est) (opc : N) (l : list N) : est * list N * list N :=
             | Done (w', _) => (set_w st wi w' 0, rest, out_err u 1 (b_items b))
             | Panic c => (set_w st wi w 1, rest, out_panic u c (b_items b))
             end
-        | 4 =>
-            let '(h, r1) := dec_href st args in
+        | 4 | 24 =>
+            (* remove::<S>: S a static tuple (4, key tag 0) or a derived Bundle struct (24: the kind follows the handle) *)
+            let '(h, r0) := dec_href st args in
+            let '(tag, r1) := if N.eqb opc 24 then match r0 with k :: r => (k, r) | [] => (0, []) end else (0, r0) in
             let '(ts, rest) := dec_types r1 in
-            match w_remove u w h (0 :: ts) ts with
+            match w_remove u w h (tag :: ts) ts with
             | Done (w', WOk taken) => (set_w st wi w' 0, rest, out_ok u (vals_flat (map (zval u) taken)) [])
             | Done (w', WNoSuchEntity) => (set_w st wi w' 0, rest, out_err u 1 [])
             | Done (w', WMissing) => (set_w st wi w' 0, rest, out_err u 2 [])
             | Panic c => (set_w st wi w 1, rest, out_panic u c [])
             end
-        | 5 =>
-            let '(h, r1) := dec_href st args in
+        | 5 | 25 =>
+            let '(h, r0) := dec_href st args in
+            let '(tag, r1) := if N.eqb opc 25 then match r0 with k :: r => (k, r) | [] => (0, []) end else (0, r0) in
             let '(ts, r2) := dec_types r1 in
             let '(b, rest) := dec_bundle u r2 in
-            match w_exchange u w h (0 :: ts) ts b with
+            match w_exchange u w h (tag :: ts) ts b with
             | Done (w', WOk (taken, d)) => (set_w st wi w' 0, rest, out_ok u (vals_flat (map (zval u) taken)) d)
             | Done (w', WNoSuchEntity) => (set_w st wi w' 0, rest, out_err u 1 (b_items b))
             | Done (w', WMissing) => (set_w st wi w' 0, rest, out_err u 2 (b_items b))
